@@ -183,7 +183,7 @@ fn variation_cases(tier: Tier) -> Vec<(String, Vec<(String, Vec<u8>)>, ArcLayout
     }
     for l in 1..=nlen {
         let n1: String = "abcdefghij".chars().cycle().take(l).collect();
-        let n2: String = "名前ｶﾅ".chars().cycle().take(l / 2 + 1).collect();
+        let n2: String = (if l % 2 == 1 { "z" } else { "" }).to_string() + &"名前".chars().cycle().take(l / 2).collect::<String>() + "ｶ"; // two-byte lead bytes at odd AND even offsets
         v.push((format!("names of {} bytes", l), vec![(n1, body(0, 3)), (n2, body(1, 40))], lay(2, l % 2 == 0, true), ArcTweak { label_records: (l % 3) as u8, ..Default::default() }));
     }
     v
